@@ -51,6 +51,7 @@ class Run(object):
         self.t0 = time.time()
         self.quiet = quiet
         self.model_stats = {}
+        self.soft = set()           # rules whose clause is decided by a passing spelling-independent rule: corroboration only
 
     # ------------------------------------------------------------------ recording
     def ob(self, rule, key, ok, detail='', site=''):
@@ -71,6 +72,42 @@ class Run(object):
         if text not in self.assumptions:
             self.assumptions.append(text)
 
+    def corroborating(self, sem_ok, by, rules=(), only=None):
+        """scope for *syntactic* rules whose clause is also decided by the spelling-independent rule `by`.  When `by` passed (sem_ok),
+        the syntactic rules only corroborate: a failure or an unknown idiom inside the scope means they could not follow this spelling and
+        becomes a note, and their instance floors are not enforced.  When `by` failed, everything they report is kept (it localises the
+        defect).  A right check is never loosened by this: the clause itself stays decided, by `by`."""
+        run = self
+
+        class _Scope(object):
+            def __enter__(self_):
+                self_.start = len(run.obs)
+                return self_
+
+            def __exit__(self_, et, ev, tb):
+                from .model import AnalysisError
+                if not sem_ok:
+                    return False
+                inside = run.obs[self_.start:]
+                keep = []
+                for o in inside:
+                    if only is not None and not only(o):
+                        keep.append(o)
+                        continue
+                    run.soft.add(o.rule)
+                    if o.ok:
+                        keep.append(o)
+                    else:
+                        run.note(o.rule, o.key, 'the syntactic rule does not follow this spelling (%s); the clause is decided by %s, which passes' % (o.detail[:160], by))
+                run.obs[self_.start:] = keep
+                for r in rules:
+                    run.soft.add(r)
+                if et is not None and issubclass(et, AnalysisError):
+                    run.note(by, 'syntactic corroboration', 'unknown idiom for the syntactic rules (%s); the clause is decided by %s, which passes' % (str(ev)[:200], by))
+                    return True
+                return False
+        return _Scope()
+
     def count(self, rule):
         return sum(1 for o in self.obs if o.rule == rule or o.rule.startswith(rule + '.'))
 
@@ -82,7 +119,7 @@ class Run(object):
         known = [k for k in load_known() if k.get('property') == self.pid]
         for rule, (n, why) in self.floors.items():
             c = self.count(rule)
-            if c < n:
+            if c < n and rule not in self.soft:
                 self.error('rule %s enumerated %d instances, floor is %d (%s)' % (rule, c, n, why))
         viol = self.violations()
         known_hit, fresh = [], []
